@@ -107,7 +107,11 @@ func (rt *ReportTracker) updateBlock(block chain.Block) {
 	rt.mu.Lock()
 	defer rt.mu.Unlock()
 
-	rt.latest = &block
+	// blocks can reach a listener out of order; the latest block is the highest
+	// one seen, otherwise confirmations would shrink or even become negative
+	if rt.latest == nil || rt.latest.Number == nil || (block.Number != nil && block.Number.Cmp(rt.latest.Number) > 0) {
+		rt.latest = &block
+	}
 }
 
 func createPluginTransmitEvents(chainEvent chain.TransmitEvent, latest chain.Block) ([]ocr2keepers.TransmitEvent, error) {
